@@ -31,7 +31,8 @@ def rk(p):
 
 def value(tok):
     return {'Int1': 7, 'NoneV': None, 'List12': [1, 2], 'Tuple12': (1, 2), 'Arr12': np.array([1, 2]),
-            'TupTup': ((2, 1),), 'ListTup': [(2, 1)]}[tok]
+            'TupTup': ((2, 1),), 'ListTup': [(2, 1)], 'Arr1': np.array([5]), 'List1': [5], 'Arr2D': np.array([[1, 2]]),
+            'ListList': [[1, 2]]}[tok]
 
 
 def normv(v):
@@ -44,15 +45,19 @@ def normv(v):
 
 def token(v, default):
     if isinstance(v, np.ndarray):
-        return 'Arr12' if v.tolist() == [1, 2] else 'other'
+        return {'[1, 2]': 'Arr12', '[5]': 'Arr1', '[[1, 2]]': 'Arr2D'}.get(str(v.tolist()), 'other')
     if default is not _MISSING and type(v) in (type(default), list) and normv(v) == normv(default) and not (isinstance(v, list) and v == [1, 2]):
         return 'Default'
     if v is None:
         return 'NoneV'
     if type(v) is int and v == 7:
         return 'Int1'
-    if type(v) is list and v == [1, 2]:
+    if type(v) is list and v == [1, 2] and all(type(e) is int for e in v):
         return 'List12'
+    if type(v) is list and v == [5] and type(v[0]) is int:
+        return 'List1'
+    if type(v) is list and v == [[1, 2]] and type(v[0]) is list:
+        return 'ListList'
     if type(v) is tuple and v == (1, 2):
         return 'Tuple12'
     if type(v) is tuple and v == ((2, 1),) and type(v[0]) is tuple:
@@ -137,6 +142,7 @@ def replay(emd, variant, beh_hist, states, workdir, tag):
     A = emd.sift.get_config(variant)
     B = emd.sift.get_config(variant)
     defaults = copy.deepcopy(emd.sift.get_config(variant).store)
+    W = emd.sift.get_config(variant)         # a witness object nobody operates on
     for i, op in enumerate(beh_hist):
         want = states[json.dumps(beh_hist[:i + 1])]
         try:
@@ -149,6 +155,10 @@ def replay(emd, variant, beh_hist, states, workdir, tag):
         wstate = [canon(t, lookup(defaults, p)) for t, p in zip(want['state'], ORDER)]
         if pa[0] != wstate or pa[1] != want['groups']:
             return 'after op %d %s: real %s, specification %s' % (i + 1, op, pa, (want['state'], want['groups']))
+        for what, obj in (('a configuration object obtained earlier', W), ('a fresh get_config()', emd.sift.get_config(variant))):
+            pw = project(obj, defaults)
+            if pw[0] != want['witness'] or not all(pw[1]):
+                return 'after op %d %s: %s changed: %s, specification %s' % (i + 1, op, what, pw[0], want['witness'])
         if op[0] == 'get':
             d = lookup(defaults, op[1])
             ta, tb = token(ga, d), token(gb, d)
@@ -238,9 +248,9 @@ def run():
     ctx = Ctx('C18')
     D = ctx.pick(2, 3)
     cfg = os.path.join(ctx.work, 'sc.cfg')
-    vals = '{"Int1", "NoneV", "List12", "Tuple12", "Arr12", "TupTup"}'
+    vals = '{"Int1", "NoneV", "List12", "Tuple12", "Arr12", "TupTup", "Arr1", "Arr2D"}'
     props = ['DeleteExact', 'RoundTripFaithful', 'RoundTripIdempotent']
-    core.write_cfg(cfg, spec='Spec', invariants=['LeavesNeedParents'], properties=props, constants={'MaxOps': D, 'Values': vals})
+    core.write_cfg(cfg, spec='Spec', invariants=['LeavesNeedParents', 'WitnessUntouched'], properties=props, constants={'MaxOps': D, 'Values': vals})
     res = core.run_tlc(ctx, 'SiftConfig', cfg, name='SiftConfig depth %d' % D)
     core.require_ok(res, 'Leg A SiftConfig')
     core.write_cfg(cfg, spec='Spec', invariants=['W_TupleBecomesList'], constants={'MaxOps': 2, 'Values': vals})
@@ -262,14 +272,15 @@ def run():
         return [[o[0], list(o[1]), o[2]] for o in b['hist']]
     states = {}
     for b in behs + sim:
-        states[json.dumps(hist_of(b))] = {'state': list(b['state']), 'groups': [bool(g) for g in b['groups']], 'lastGet': b['lastGet']}
+        states[json.dumps(hist_of(b))] = {'state': list(b['state']), 'groups': [bool(g) for g in b['groups']], 'lastGet': b['lastGet'],
+                                          'witness': list(b['witness'])}
     paths = [hist_of(b) for b in behs if len(b['hist']) == D]
     deep = {}
     for b in sim:
         if len(b['hist']) == 12:
             deep[json.dumps(hist_of(b))] = hist_of(b)
     paths += list(deep.values())
-    ctx.leg('A', properties=props + ['LeavesNeedParents'], histories_exhaustive=len(paths) - len(deep), histories_simulated=len(deep))
+    ctx.leg('A', properties=props + ['LeavesNeedParents', 'WitnessUntouched'], histories_exhaustive=len(paths) - len(deep), histories_simulated=len(deep))
     idx = list(enumerate(paths))
     jobs = [(idx[i::16], states, ctx.work) for i in range(16)]
     nbad = 0
@@ -292,7 +303,7 @@ def run():
     ctx.leg('C', behavioural_records=len(recs))
     for r, clause in bad:
         ctx.violation('C18: %s violated: %s' % (clause, r), {'clause': clause, 'record': r})
-    ctx.cov['rule'] = ('ALL histories of %d operations over {set (8 leaf paths at depth 1-3 incl. fresh keys x 6 value kinds: int, None, list, tuple, array, tuple of tuples), delete leaf / group, get, '
+    ctx.cov['rule'] = ('ALL histories of %d operations over {set (8 leaf paths at depth 1-3 incl. fresh keys x 8 value kinds: int, None, list, tuple, array, tuple of tuples, one-element array, 1 x 2 array), a witness configuration object and a fresh get_config() observed after every operation, delete leaf / group, get, '
                        'YAML round trip by 3 routes} plus %d simulated histories of depth 12, each replayed on a slash-path object and a nested-index object for the four sift variants in turn; '
                        'non-trivial = histories mixing edits and a round trip' % (D, len(deep)))
     return ctx.finish()
